@@ -102,8 +102,16 @@ func (s *MySQLSequence) getSeqFromDB() error {
 		return errors.New(fmt.Sprintf("invalid mycat sequence value %s %s", s.seqName, ret))
 	}
 
-	curr, _ := strconv.ParseInt(ns[0], 10, 64)
-	incr, _ := strconv.ParseInt(ns[1], 10, 64)
+	curr, err := strconv.ParseInt(ns[0], 10, 64)
+	if err != nil {
+		return fmt.Errorf("invalid mycat sequence value %s %s", s.seqName, ret)
+	}
+	incr, err := strconv.ParseInt(ns[1], 10, 64)
+	if err != nil || incr <= 0 {
+		// a missing sequence row answers "-999999999,null"; an increment that is
+		// not positive grants no block
+		return fmt.Errorf("invalid mycat sequence value %s %s", s.seqName, ret)
+	}
 	s.max = curr + incr
 	s.curr = curr
 	return nil
